@@ -96,7 +96,7 @@ CFG = {
     "nontrivial": c15_nontrivial,
     "classify": c15_classify,
     "trace": True,
-    "rule": "every family reads each handed-over event twice (at hand-over and at the end of the case / when the holding output sends its batch): stability of the joined value; back-to-back runs of decreasing length on one instance (join, join_template, pipeline); join_template classifiers: every ascii helper on all 256 bytes (c15.ascii); the three templates' StartCheck/ContinueCheck on ~50 frames in which one byte decides a character class or a literal, that byte running over 0..255, every position of the case-insensitively compared literals over 0..255, the line pool and random splices with class-boundary bytes (c15.tpl), and every such frame inside real join_template sequences with the deciding byte over the class boundaries (quick) / 0..255 (thorough); join: exhaustive call sequences over {start line, continuation, other, both, number, absent field, time-out} up to length 4 (quick) / 5 (thorough) x 5 configurations (negate, limits 0/2/3/5), then random sequences (PRNG regexps over a tiny alphabet, nested paths, non-string values, 1-3 stream tags, limits 0/1/3/8/64, time-outs mid-run and a few ill-timed); join_template: random sequences over every ordered selection of the three templates, values from a pool of template-relevant lines and mutations; k8s: exhaustive sequences over 16 log shapes (partial, ending, empty, escaped backslash+n, numbers of 1-3 digits, null, bool, object, array, absent, time-out) up to length 3 (quick) / 4 (thorough) x 5 limit settings, then random chunk sequences (escapes on chunk borders, limits 0/4/8/20/64 skip+cut, forced split); pipeline: real pipelines with 1/2/4/8 processors, 1-6 interleaved streams over 1-3 sources, the real join alone or with scripted discarding actions before and/or after it (chains j, jv, vj, vjv, jvv; start lines discarded downstream in half of the cases), pauses that let the real stream time-out fire. distinct = distinct case line; non-trivial = some call answered hold or collapse",
+    "rule": "every family reads each handed-over event twice (at hand-over and at the end of the case / when the holding output sends its batch): stability of the joined value; back-to-back runs of decreasing length on one instance (join, join_template, pipeline); join_template classifiers: every ascii helper on all 256 bytes (c15.ascii); the three templates' StartCheck/ContinueCheck on ~50 frames in which one byte decides a character class or a literal, that byte running over 0..255, every position of the case-insensitively compared literals over 0..255, the line pool and random splices with class-boundary bytes (c15.tpl), and every such frame inside real join_template sequences with the deciding byte over the class boundaries (quick) / 0..255 (thorough); join: exhaustive call sequences over {start line, continuation, other, both, number, absent field, time-out} up to length 4 (quick) / 5 (thorough) x 5 configurations (negate, limits 0/2/3/5), then random sequences (PRNG regexps over a tiny alphabet, nested paths, non-string values, 1-3 stream tags, limits 0/1/3/8/64, time-outs mid-run and a few ill-timed); join_template: random sequences over every ordered selection of the three templates, values from a pool of template-relevant lines and mutations; k8s: exhaustive sequences over 16 log shapes (partial, ending, empty, escaped backslash+n, numbers of 1-3 digits, null, bool, object, array, absent, time-out) up to length 3 (quick) / 4 (thorough) x 5 limit settings, then random chunk sequences (escapes on chunk borders, limits 0/4/8/20/64 skip+cut, forced split); pipeline: real pipelines with 1/2/4/8 processors, 1-6 interleaved streams over 1-3 sources, the real join alone or with scripted discarding actions before and/or after it (chains j, jv, vj, vjv, jvv and the same with J = join carrying the match condition k=y, satisfied by 3/4 of the events; start lines discarded downstream in half of the cases), pauses that let the real stream time-out fire. distinct = distinct case line; non-trivial = some call answered hold or collapse",
     "corr_name": "JoinTemplates.* = real ascii helpers and template check functions; Join.run / Join.trun / K8s.run = real plugin Do calls (ActionResult, Propagate calls, event after the call); pipeline: every instance's observed calls replayed through Join.step, per-stream output (value and order) = SpecC15.spec of the calls the join saw minus downstream discards",
     "trusted_base": [
         "oracles per event: regexp.MatchString, insane-json Dig/IsString/AsString/MutateToString/AppendEscapedString (recomputed by exec from the case's regexps / template names / raw JSON; a case whose oracle bits disagree is rejected)",
